@@ -354,6 +354,14 @@ pub struct Faulted {
 /// Enumerate COMPLETELY: every member deletion, every member duplication, every scalar x
 /// every alternative, every array grow/shrink, every enum-tag swap.
 pub fn structured_faults(doc: &J, sink: &mut dyn FnMut(Faulted)) {
+    structured_faults_on(doc, 1, 0, sink)
+}
+
+/// As `structured_faults`, on every `stride`-th field only (fields `phase`, `phase + stride`,
+/// ... in document order; each chosen field still gets its complete set of faults). For
+/// documents so large that the complete enumeration - quadratic in the document size - is
+/// out of reach.
+pub fn structured_faults_on(doc: &J, stride: usize, phase: usize, sink: &mut dyn FnMut(Faulted)) {
     let all = paths(doc);
     // values that occur elsewhere in the same document: altering a field to a value another
     // field already holds creates coincidences (a duplicated pair, k == n, ...)
@@ -396,7 +404,11 @@ pub fn structured_faults(doc: &J, sink: &mut dyn FnMut(Faulted)) {
         }
         out
     };
-    for p in &all {
+    for (pi, p) in all.iter().enumerate() {
+        // (the shallow fields - the document's own structure - are always taken)
+        if stride > 1 && p.len() > 2 && pi % stride != phase % stride {
+            continue;
+        }
         let node = get(doc, p).unwrap();
         let here = describe(doc, p);
         match node {
@@ -897,7 +909,15 @@ pub fn random_fault(doc: &J, pick: &mut dyn FnMut(usize) -> usize) -> Option<(J,
 
 /// Every truncation offset (on UTF-8 boundaries), 0..len-1.
 pub fn truncations(text: &str, sink: &mut dyn FnMut(Faulted)) {
+    truncations_on(text, 1, 0, sink)
+}
+
+/// As `truncations`, at every `stride`-th byte only (plus the first and last 64 cuts).
+pub fn truncations_on(text: &str, stride: usize, phase: usize, sink: &mut dyn FnMut(Faulted)) {
     for k in 0..text.len() {
+        if stride > 1 && k % stride != phase % stride && k >= 64 && k + 64 < text.len() {
+            continue;
+        }
         if text.is_char_boundary(k) {
             sink(Faulted {
                 kind: "TRUNC",
